@@ -453,7 +453,7 @@ func c04(c *Ctx, roundtripOnly bool) {
 	if roundtripOnly {
 		c.Rule = "index states: the C04 generator (sorted sequences of <=3 records over boundary-biased interval alphabets on references 0..3 incl. references without records, placed-unmapped and unplaced records) for BAI, tabix (3 header settings) and CSI v1/v2 x aux {nil, 5 bytes} on geometries (14,5),(12,4),(1,2),(3,3). For every state: write -> read -> write gives identical bytes, also when the reader's source delivers one byte per Read call; NumRefs, per-reference mapped/unmapped counts and chunk spans and the unplaced count are equal on both sides and equal the true counts of the records added; every C04 query answers identically on the re-read index. Non-trivial: states with >=2 records or a reference without records."
 	} else {
-		c.Rule = "BAI, tabix and CSI (geometries (14,5),(14,6),(12,4),(1,2),(3,3)): every sorted sequence of 1-2 records over the full interval alphabet (starts at 0,1,T-1,T,T+1,2T, every bin-level boundary +-1, limit-2, limit-1; lengths 1,2,T-1,T,T+1,8T,largest level+1) and every sequence of 3 over a reduced alphabet, on reference patterns (0),(0,0),(0,1),(0,2: reference 1 empty),(0,0,0),(0,0,2),(0,1,1),(0,1,3), plus placed-unmapped and unplaced records; chunks are consecutive synthetic virtual offsets (same-block, block-end and next-block forms). For every state and every query interval ([p,p+1) and [p,p+T+1) for every alphabet position p, plus whole-range and tile-edge queries) on every reference: Add never fails or panics, and every record overlapping the query is covered by the union of the returned chunks (an error or empty answer implies no overlap); repeated after write->read and after MergeChunks with Identity, Adjacent, Squash, Compressor(0), Compressor(65536). Non-trivial: (state, query) pairs with at least one overlapping record."
+		c.Rule = "BAI, tabix and CSI (geometries (14,5),(12,4),(1,2),(3,3); thorough adds (14,6) on the reduced alphabet): every sorted sequence of 1-2 records over the full interval alphabet (starts at 0,1,T-1,T,T+1,2T, every bin-level boundary +-1, limit-2, limit-1; lengths 1,2,T-1,T,T+1,8T,largest level+1) and every sequence of 3 over a reduced alphabet, on reference patterns (0),(0,0),(0,1),(0,2: reference 1 empty),(0,0,0),(0,0,2),(0,1,1),(0,1,3), plus placed-unmapped and unplaced records; chunks are consecutive synthetic virtual offsets (same-block, block-end and next-block forms). For every state and every query interval ([p,p+1) and [p,p+T+1) for every alphabet position p, plus whole-range and tile-edge queries) on every reference: Add never fails or panics, and every record overlapping the query is covered by the union of the returned chunks (an error or empty answer implies no overlap); repeated after write->read and after MergeChunks with Identity, Adjacent, Squash, Compressor(0), Compressor(65536). Non-trivial: (state, query) pairs with at least one overlapping record."
 	}
 	if c.Replay != nil {
 		var cas c04case
@@ -508,11 +508,12 @@ func c04(c *Ctx, roundtripOnly bool) {
 	for _, g := range cfgs {
 		full := recAlphabet(g.ms, g.d, false)
 		red := recAlphabet(g.ms, g.d, true)
-		if !c.Thorough {
-			// quick: pairs over the reduced alphabet (one record per level x boundary class)
+		if !c.Thorough || g.d >= 6 {
+			// quick: pairs over the reduced alphabet (one record per level x boundary class);
+			// the depth-6 geometry too: its whole-range queries walk ~300 000 bins each
 			full = red
 		}
-		seqs := sequences(full, red, c.Thorough)
+		seqs := sequences(full, red, c.Thorough && g.d < 6)
 		parallel(len(seqs), func(i int) {
 			cas := c04case{Kind: g.kind, MinShift: g.ms, Depth: g.d, Recs: seqs[i]}
 			c04run(c, cas, roundtripOnly, &evals, &nontriv)
